@@ -85,3 +85,57 @@ package transaction
 //@ func (*ConditionCalledByGroup).Match
 //@ requires c != nil && ctx != nil
 //@ ensures[match] result1 == nil ==> result0 == match(WitnessCondition(c), ctx)
+
+//@ prop C08,C07
+
+// Abstract identity and size of a transaction (the cached hash/size fields are
+// treated as a pure function of the transaction object).
+//@ spec txHash(t *Transaction) util.Uint256
+//@ spec txSize(t *Transaction) int
+
+//@ func (*Transaction).Hash
+//@ assumed
+//@ pure
+//@ requires t != nil
+//@ ensures result == txHash(t)
+
+//@ func (*Transaction).Size
+//@ assumed
+//@ pure
+//@ requires t != nil
+//@ ensures result == txSize(t) && result > 0
+
+//@ func (*Transaction).Sender
+//@ requires t != nil
+//@ panics-if len(t.Signers) == 0
+//@ ensures[first] result == t.Signers[0].Account
+
+//@ func (*Transaction).HasAttribute
+//@ requires t != nil
+//@ ensures[exists] result == exists(i, 0, len(t.Attributes), t.Attributes[i].Type == typ)
+//@ loop 0 invariant forall(j, 0, $i, t.Attributes[j].Type != typ)
+
+//@ func (*Transaction).HasSigner
+//@ requires t != nil
+//@ ensures[exists] result == exists(i, 0, len(t.Signers), t.Signers[i].Account == hash)
+//@ loop 0 invariant forall(j, 0, $i, t.Signers[j].Account != hash)
+
+//@ func (*Transaction).FeePerByte
+//@ requires t != nil
+//@ ensures[div] result == t.NetworkFee / txSize(t) && txSize(t) > 0
+
+//@ spec wfAttr(a Attribute) bool = (a.Type == OracleResponseT ==> is(a.Value, *OracleResponse) && a.Value.(*OracleResponse) != nil) && (a.Type == ConflictsT ==> is(a.Value, *Conflicts) && a.Value.(*Conflicts) != nil)
+//@ spec wfAttrs(t *Transaction) bool = forall(i, 0, len(t.Attributes), wfAttr(t.Attributes[i]))
+
+//@ func (*Transaction).GetAttributes
+//@ requires t != nil
+//@ ensures[typ] forall(i, 0, len(result), result[i].Type == typ)
+//@ ensures[src] forall(i, 0, len(result), exists(j, 0, len(t.Attributes), result[i] == t.Attributes[j]))
+//@ ensures[empty] (len(result) == 0) == !exists(j, 0, len(t.Attributes), t.Attributes[j].Type == typ)
+//@ ensures[fresh] len(result) > 0 ==> fresh(result)
+//@ ensures[wf] wfAttrs(t) ==> forall(i, 0, len(result), wfAttr(result[i]))
+//@ loop 0 invariant[typ] forall(i, 0, len(result), result[i].Type == typ && exists(j, 0, $i, result[i] == t.Attributes[j]))
+//@ loop 0 invariant[empty] (len(result) == 0) == !exists(j, 0, $i, t.Attributes[j].Type == typ)
+//@ loop 0 invariant[wf] wfAttrs(t) ==> forall(i, 0, len(result), wfAttr(result[i]))
+//@ loop 0 invariant[fresh] (result == nil && len(result) == 0) || fresh(result)
+//@ loop 0 invariant[frame] same(t.Attributes, old(t.Attributes)) && forall(j, 0, len(t.Attributes), t.Attributes[j] == old(t.Attributes[j]))
